@@ -273,6 +273,58 @@ class StatefulUse(Family):
         return 'ok', True, n * len(HTS12)
 
 
+class Extremes(Family):
+    """transactions whose fields sit at the ends of their wire ranges (lock time 2^32-1, version -2^31 / 2^31-1, sequence and
+    outpoint index 2^32-1, output value 2^63-1 / -1) and transactions holding an exact duplicate of the signed input (same
+    outpoint, same scriptSig, same sequence) at another position: 12 hash types, every index, both classes"""
+    name = 'field_extremes_and_duplicate_inputs'
+    nontrivial_rule = 'every case'
+    SETS = [{'locktime': 0xffffffff}, {'version': -0x80000000}, {'version': 0x7fffffff}, {'vin.0.seq': 0xffffffff, 'vin.0.n': 0xffffffff},
+            {'vout.0.value': 0x7fffffffffffffff}, {'vout.0.value': -1}, {'locktime': 0xffffffff, 'version': -1, 'vin.0.seq': 0}]
+
+    def cases(self, shard, tier):
+        for nin, nout in ((1, 1), (2, 2), (3, 2)):
+            for k in range(len(self.SETS)):
+                for mut in (False, True):
+                    yield ('extreme', nin, nout, k, mut)
+            for a in range(nin):
+                for bpos in range(nin):
+                    if a != bpos:
+                        for mut in (False, True):
+                            yield ('dup', nin, nout, (a, bpos), mut)
+
+    def check(self, case):
+        from bitcoin.core.script import RawSignatureHash, SignatureHash, SIGVERSION_BASE, CScript
+        kind, nin, nout, x, mut = case
+        if kind == 'extreme':
+            m = C.tx_from_case({'nin': nin, 'nout': nout, 'set': self.SETS[x]})
+        else:
+            m = C.default_tx(nin, nout)
+            a, bpos = x
+            m['vin'][bpos] = dict(m['vin'][a])
+        try:
+            tx = C.lib_tx(m, mutable=mut)
+        except Exception as e:  # noqa
+            raise Viol('a transaction whose fields lie in their wire ranges cannot be built (%s)' % (self.SETS[x] if kind == 'extreme' else 'duplicate input',), 'object', '%s: %s' % (type(e).__name__, e))
+        n = 0
+        for si in (3, 13):
+            script = SCRIPTS[si]
+            cs = CScript(script)
+            for idx in range(nin):
+                for ht in HTS12:
+                    want, werr = SH.legacy(script, m, idx, ht)
+                    try:
+                        h, err = RawSignatureHash(cs, tx, idx, ht)
+                    except Exception as e:  # noqa
+                        raise Viol('RawSignatureHash raised %s (%s %r, idx=%d, hashtype=%#04x)' % (type(e).__name__, kind, self.SETS[x] if kind == 'extreme' else x, idx, ht), want.hex(), '%s: %s' % (type(e).__name__, e))
+                    n += 1
+                    if h != want or (err is not None) != werr:
+                        raise Viol('RawSignatureHash (%s %r, %s, idx=%d, hashtype=%#04x)' % (kind, self.SETS[x] if kind == 'extreme' else x, 'mutable' if mut else 'immutable', idx, ht), (want.hex(), werr), (bytes(h).hex(), err))
+                    if not werr and SignatureHash(cs, tx, idx, ht, sigversion=SIGVERSION_BASE) != want:
+                        raise Viol('SignatureHash (%s %r, idx=%d, hashtype=%#04x)' % (kind, x, idx, ht), want.hex(), None)
+        return kind, True, n
+
+
 class ShortLivedAndErrors(Family):
     """(a) a run of different immutable transactions that live only for one call (built or deserialised inside the call
     expression, dropped at once, so that the next one is likely to occupy the same memory): every digest is that of the
@@ -346,4 +398,4 @@ class ShortLivedAndErrors(Family):
 
 
 def families(tier):
-    return [Legacy(), ManyInputs(), HugePush(), StatefulUse(), ShortLivedAndErrors()]
+    return [Legacy(), ManyInputs(), HugePush(), StatefulUse(), ShortLivedAndErrors(), Extremes()]
